@@ -20,6 +20,7 @@ between a successful flock(LOCK_EX) and close; crash images only need `before` a
 Concurrency: 2-3 real simultaneous deliveries to one mbox / one maildir, many rounds (all messages intact, names distinct),
 plus a held-lock test (another process holds flock: nothing may be appended meanwhile).
 
+A violation is reported only if it reproduces on two further executions of the same run (otherwise inconclusive/`unreproducible`).
 Slack: files left in tmp/ ("may attempt to unlink"); exit status / roll-back after a failing flock; EINTR and short writes may be
 retried. Left to the lead: systematic interleavings of concurrent deliveries through VSHIM_GATE (only real-time concurrency
 here); ftruncate faults (would need two faults in one run); a generated intermediate truncation length for mbox crash images
@@ -421,9 +422,9 @@ def run_input(box, sc, stats, full=True, pick=12):
 
     def one(mode, **kw):
         rc, err, t0, t1, ev = c.execute(**kw)
-        if rc is None:
+        if rc is None or lc.main_pid(ev) is None:      # watchdog, or the interposer was not loaded: nothing can be judged
             stats.inconclusive += 1
-            return None, ev, rc
+            return None, ev, None
         if c.kind == "maildir":
             v = judge_maildir(c, mode, rc, ev, stats)
         else:
@@ -445,7 +446,7 @@ def run_input(box, sc, stats, full=True, pick=12):
             # report only what reproduces on two further executions of the same run (DESIGN.md 1: 'replayed 3x')
             for _ in range(2):
                 rc2, err2, t02, t12, ev2 = c.execute(**kw)
-                v2 = None if rc2 is None else (judge_maildir(c, mode, rc2, ev2, vlib.Stats()) if c.kind == "maildir"
+                v2 = None if (rc2 is None or lc.main_pid(ev2) is None) else (judge_maildir(c, mode, rc2, ev2, vlib.Stats()) if c.kind == "maildir"
                                                else judge_mbox(c, mode, rc2, ev2, t02, t12, vlib.Stats()))
                 if v2 is None:
                     stats.inconclusive += 1
